@@ -143,7 +143,7 @@ func ParseEvents(data string) []Event {
 				ev.CallerLine, _ = strconv.Atoi(f[3])
 				ev.CallKind = f[4]
 			}
-		case "P":
+		case "P", "Q":
 			ev.ID, _ = strconv.Atoi(f[1])
 			if len(f) > 2 {
 				ev.Addr = f[2]
